@@ -57,6 +57,9 @@ def rsa_artifact(rng, kind, pool=None):
     p = rsagen.low_weight_prime(rng, 512, rng.choice([3, 8, 16]))
     q = rsagen.low_weight_prime(rng, 512, rng.choice([3, 8, 16]))
     n = p * q
+  elif kind == 'smooth-both':
+    # weak for the Pollard check *without* a factorisation (verdict-only path)
+    n, p, q = rsagen.shared_smooth_checked(rng, 1024, True)
   elif kind == 'smooth':
     n, p, q = rsagen.shared_smooth(rng, 1024, rng.chance(1, 3))
   elif kind == 'keypair':
